@@ -302,6 +302,18 @@ fn main() {
     match mode {
         "c10_jubjub_fr" => c10_fr(&mut rng, rounds),
         "c11_jubjub" => c11_jubjub(&mut rng, rounds),
+        "c10_sum" => {
+            // batched variants over borrowed items (impl_sum! / impl_product!)
+            let v = [Fr::one(), Fr::one().double(), Fr::random(&mut rng)];
+            let s: Fr = v.iter().sum();
+            if s != v[0].add(&v[1]).add(&v[2]) {
+                report("sum_of_refs", "Fr", format!("{:?}", s), "fold of add".into());
+            }
+            let p: Fr = v.iter().product();
+            if p != v[0].mul_ref(&v[1]).mul_ref(&v[2]) {
+                report("sum_of_refs", "Fr product", format!("{:?}", p), "fold of mul".into());
+            }
+        }
         "c11_bls" => {
             c11_g1(&mut rng, rounds);
             c11_g2(&mut rng, rounds);
